@@ -413,6 +413,7 @@ func FirstCalls() []fw.Call {
 func Run(r *fw.Run) {
 	defer fw.FirstCallOrders(r, r.ID, FirstCalls(), nil)
 	tallTiles(r)
+	DeepLogs(r)
 	scs := scen.All()
 	cfgs := []Config{{Gran: "ops", Mode: "deviations", Bound: 2, Only: nil}, {Gran: "sync", Mode: "deviations", Bound: 1, Only: nil}, {Gran: "ops", Mode: "preemptions", Bound: 1, Only: Small}, {Gran: "sync", Mode: "preemptions", Bound: 1, Only: Small}, {Gran: "ops", Mode: "deviations", Bound: 3, Only: Compact}}
 	perJob, total := 60*time.Second, 150*time.Second
